@@ -17,9 +17,10 @@ def run(rep):
                         'the mass-matrix strategy A, the Hamiltonian, the RNG (jitter u in [1-j, 1+j)) and the step-size search Strategy::init are the environment; A::adapt may report a change or not (both explored)',
                         'exact reals; exp/ln/sqrt/pow uninterpreted', 'Some(jitter) with j <= 0 or j >= 1 is outside (Uniform::new(..).expect("Invalid jitter") is an explicit precondition of the code)']
     rep.outside += ['closed-loop behaviour of the mass-matrix strategies (C08/C09)', 'low-rank / flow internals', 'u64 -> f64 exactness above 2^32']
-    s = z3.Solver(); s.set('timeout', 120000)
+    s = z3.Solver(); s.set('timeout', 30000)
     def sat(cs):
         s.push(); s.add(*cs); s.add(*CUR['A'].lemmas); r = s.check(); md = s.model() if r == z3.sat else None; s.pop()
+        if r == z3.unknown: r, md = rep.solve(list(cs) + list(CUR['A'].lemmas))      # the incremental solver gave up: fresh solvers, other seeds
         if r == z3.unknown: rep.unknown('C06 solver unknown')
         return (r == z3.sat), md
     I = z3.Int; draw, nt, fw = I('draw'), I('num_tune'), I('final_window')
